@@ -425,6 +425,9 @@ let run_surgery line =
       | ["SP"; a; b; c; d] -> OSplit (nd a, nd b, nd c, nd d)
       | ["SC"; a; c] -> OSplitChar (nd a, nd c)
       | ["M"; a; b] -> OMate (nd a, nd b)
+      | ["EM"; t; c1; c2; c3; c4; c5; c6; c7; c8; c9; c10] ->
+        OEmph ({ c_star = nd c1; c_ul = nd c2; c_strong_start = nd c3; c_strong_stop = nd c4; c_emph_start = nd c5; c_emph_stop = nd c6;
+                 c_pair_strong = nd c7; c_pair_emph = nd c8; c_pair_backtick = nd c9; c_pair_math = nd c10 }, nd t)
       | _ -> failwith ("bad op " ^ o) in
     let ops = List.map parse (List.filter (fun o -> o <> "") ops) in
     let ((h, dn), ok) = th_run src [] ops N0 in
